@@ -6,6 +6,9 @@ type chanState struct {
 	cap    int
 	q      []any
 	closed bool
+	// keep the real channel alive for the whole execution: its address is
+	// the key of this shadow state and must not be reused by the allocator
+	keep any
 }
 
 func (s *Sched) chanOf(ch any) (*chanState, uintptr) {
@@ -13,7 +16,7 @@ func (s *Sched) chanOf(ch any) (*chanState, uintptr) {
 	p := v.Pointer()
 	cs := s.chans[p]
 	if cs == nil {
-		cs = &chanState{cap: v.Cap()}
+		cs = &chanState{cap: v.Cap(), keep: ch}
 		s.chans[p] = cs
 	}
 	return cs, p
